@@ -618,6 +618,7 @@ def run_shard(pmod, tier, seed, shard, nshards, budget_s):
                 st.samples.append({"surface": surf.name, "input": surf.describe(x), "impl": wire.jsonable(i), "model": wire.jsonable(m)})
             if surf.agree(x, i, m):
                 continue
+            resource_outcome = i[0] == "EXC" and str(i[1]).startswith(("TIMEOUT", "KILLED"))
             if i[0] == "EXC" and str(i[1]).startswith(("TIMEOUT", "KILLED")):
                 # a resource outcome (time limit, kill) must REPRODUCE to count: a genuine hang or blow-up is deterministic,
                 # a slow moment of a loaded machine is not (false-alarm guard; the number of such moments is in the evidence)
@@ -633,6 +634,15 @@ def run_shard(pmod, tier, seed, shard, nshards, budget_s):
                 return not (mm[0] == "EXC" and mm[1] == "EUndefined") and not surf.agree(c, ii, mm)
             xs = shrink(x, still, frozen=surf.frozen) if surf.shrinkable else x
             ii, mm = surf.impl(xs), surf.model(rn, xs)
+            if resource_outcome and not (mm[0] == "EXC" and mm[1] == "EUndefined") and surf.agree(xs, ii, mm):
+                # the case that is about to be reported no longer fails: the disagreement was a time limit / kill (twice in a row, on a
+                # machine under sustained load) and not a property of the input.  Ask the ORIGINAL input once more; report it, as it
+                # is, only if it fails again (false-alarm guard: seen with three other checks and a thorough run sharing the cores)
+                i3, m3 = surf.impl(x), surf.model(rn, x)
+                if (m3[0] == "EXC" and m3[1] == "EUndefined") or surf.agree(x, i3, m3):
+                    st.bump("transient_resource_outcome_not_reproduced")
+                    continue
+                xs, ii, mm = x, i3, m3
             tags = sorted(surf.tags(xs))
             kf = match_known(pmod.ID, tags, known, ii)
             if kf:
